@@ -285,11 +285,46 @@ def run(db: DB, rep: Report) -> None:
     loops = [n for n in walk_no_nested(hi.node) if isinstance(n, ast.For) and
              any(isinstance(x, ast.Call) and isinstance(x.func, ast.Attribute) and
                  x.func.attr == "__translate" for x in ast.walk(n))]
-    ok = len(loops) == 1 and norm(loops[0].iter).startswith("range(len(") and \
-        "get_expressions" in norm(loops[0].iter)
+    ok, shape = False, False
+    if len(loops) == 1:
+        lp = loops[0]
+
+        def is_tr(n):
+            return isinstance(n, ast.Call) and isinstance(n.func, ast.Attribute) and n.func.attr == "__translate"
+        once = all(cnt == 1 for cnt, k in paths.path_counts(lp.body, paths.make_pred(is_tr))
+                   if k != paths.RAISE)
+        calls = [x for x in ast.walk(lp) if is_tr(x)]
+        it = lp.iter
+
+        def all_exprs(e) -> bool:
+            return isinstance(e, ast.Call) and isinstance(e.func, ast.Attribute) and \
+                e.func.attr == "get_expressions" and not e.args
+        idx = None
+        if isinstance(it, ast.Call) and isinstance(it.func, ast.Name) and not it.keywords:
+            # range(len(<all expressions>)) / enumerate(<all expressions>)
+            if it.func.id == "range":
+                shape = True
+                if len(it.args) == 1 and isinstance(it.args[0], ast.Call) and norm(it.args[0].func) == "len" \
+                        and len(it.args[0].args) == 1 and all_exprs(it.args[0].args[0]) and \
+                        isinstance(lp.target, ast.Name):
+                    idx = lp.target.id
+            elif it.func.id == "enumerate":
+                shape = True
+                if len(it.args) == 1 and all_exprs(it.args[0]) and isinstance(lp.target, ast.Tuple) and \
+                        isinstance(lp.target.elts[0], ast.Name):
+                    idx = lp.target.elts[0].id
+            elif it.func.id in ("reversed", "sorted"):
+                shape = True
+        elif isinstance(it, ast.Subscript):
+            shape = True
+        ok = shape and once and idx is not None and len(calls) == 1 and len(calls[0].args) == 1 and \
+            isinstance(calls[0].args[0], ast.Name) and calls[0].args[0].id == idx and not lp.orelse
+        if not once:
+            shape = True
     rep.check("R5c", ok, db.loc(hi.node), hi.short, "init:one-translate-per-einsum",
               "HiFiber.__init__ translates every expression once, in order",
-              "HiFiber.__init__ does not call __translate exactly once per Einsum, in program order")
+              "HiFiber.__init__ does not call __translate exactly once per Einsum, in program order",
+              decided=shape)
 
     # ---- R5d -------------------------------------------------------------------
     rep.rule("R5d", "analysis passes that mutate shared tensors end with the reset/set_is_output loop", 2)
